@@ -459,7 +459,107 @@ end Bycycle.Slots
 """ % (pl + pn + tl + tn + (mr, md))
     return 'SlotsBurstFeatures.lean', lean
 
-GROUPS = [detect_slots, cyclepoints_slots, shape_slots, burstfeat_slots]
+
+# ------------------------------------------------------------------ check_kwargs_shape (C19, C12): TRANSLATED if/elif chain
+AXIS_LIT = {'0': '.a0', '1': '.a1', 'None': '.none', '(0, 1)': '.a01'}
+
+def _dimexpr(e):
+    src = ast.unparse(e)
+    if src == 'None': return '(none : Option Nat)'
+    if src == 'sigs_dim0': return 'some k.sigsDim0'
+    if src == 'kwargs_dim0': return 'some k.kwDim0'
+    if src == 'sigs_dim1': return 'k.sigsDim1'
+    if src == 'kwargs_dim1': return 'k.kwDim1'
+    raise ValueError('operand outside grammar: ' + src)
+
+def _cond(e):
+    if isinstance(e, ast.BoolOp):
+        op = ' && ' if isinstance(e.op, ast.And) else ' || '
+        return '(' + op.join(_cond(v) for v in e.values) + ')'
+    if isinstance(e, ast.UnaryOp) and isinstance(e.op, ast.Not):
+        return '(!' + _cond(e.operand) + ')'
+    if isinstance(e, ast.Compare) and len(e.ops) == 1:
+        l, o, r = e.left, e.ops[0], e.comparators[0]
+        if ast.unparse(l) == 'axis':
+            if isinstance(o, (ast.In, ast.NotIn)) and isinstance(r, (ast.List, ast.Tuple)):
+                items = ' || '.join('k.axis == %s' % AXIS_LIT[ast.unparse(x)] for x in r.elts)
+                return ('(%s)' if isinstance(o, ast.In) else '(!(%s))') % items
+            if isinstance(o, (ast.Eq, ast.NotEq)):
+                t = 'k.axis == %s' % AXIS_LIT[ast.unparse(r)]
+                return '(%s)' % t if isinstance(o, ast.Eq) else '(!(%s))' % t
+            raise ValueError('axis comparison outside grammar')
+        if isinstance(o, (ast.Eq, ast.Is)):
+            return '(%s == %s)' % (_dimexpr(l), _dimexpr(r))
+        if isinstance(o, (ast.NotEq, ast.IsNot)):
+            return '(%s != %s)' % (_dimexpr(l), _dimexpr(r))
+    raise ValueError('condition outside grammar: ' + ast.unparse(e))
+
+def _outcome(body):
+    """True = returns (accept), False = leads to a raise (reject)"""
+    last = body[-1]
+    if isinstance(last, ast.Return):
+        return 'true'
+    if isinstance(last, ast.Raise):
+        return 'false'
+    if all(isinstance(st, ast.Assign) and ast.unparse(st.targets[0]) == 'kwargs_shape' for st in body):
+        return 'false'      # falls through to the final raise
+    raise ValueError('branch body outside grammar')
+
+PINNED_CHAIN = """  if (k.sigsDim1 == (none : Option Nat)) && (k.axis == .a0 || k.axis == .none) && (some k.kwDim0 != some k.sigsDim0) then false
+  else if (k.sigsDim1 == (none : Option Nat)) && (k.axis == .a0 || k.axis == .none) && (k.kwDim1 != (none : Option Nat)) then false
+  else if (k.sigsDim1 != (none : Option Nat)) && (k.axis == .a0) && ((some k.kwDim0 != some k.sigsDim0) || (k.kwDim1 != (none : Option Nat))) then false
+  else if (k.sigsDim1 != (none : Option Nat)) && (k.axis == .a1) && ((some k.kwDim0 != k.sigsDim1) || (k.kwDim1 != (none : Option Nat))) then false
+  else if (k.sigsDim1 != (none : Option Nat)) && (k.axis == .a01) && ((some k.kwDim0 != some k.sigsDim0) || (k.kwDim1 != k.sigsDim1)) then false
+  else if (k.sigsDim1 == (none : Option Nat)) && (!(k.axis == .a0 || k.axis == .none)) then false
+  else if (k.sigsDim1 != (none : Option Nat)) && (!(k.axis == .a0 || k.axis == .a1 || k.axis == .a01)) then false
+  else true"""
+
+def kwargs_shape_slots(S):
+    def chain():
+        fn = _func('bycycle/group/utils.py', 'check_kwargs_shape')
+        body = fn.body
+        # locate: the `kwargs.ndim == 3` guard and the long if/elif chain
+        guard3 = any(isinstance(st, ast.If) and ast.unparse(st.test) == 'kwargs.ndim == 3' and isinstance(st.body[-1], ast.Raise) for st in body)
+        if not guard3:
+            raise ValueError('3-D option list guard not found')
+        early = any(isinstance(st, ast.If) and ast.unparse(st.test) in ('isinstance(kwargs, dict) or kwargs is None', 'kwargs is None or isinstance(kwargs, dict)')
+                    and isinstance(st.body[-1], ast.Return) for st in body)
+        if not early:
+            raise ValueError('dict/None early return not found')
+        big = [st for st in body if isinstance(st, ast.If) and 'sigs_dim1' in ast.unparse(st.test)]
+        if len(big) != 1:
+            raise ValueError('decision chain not found')
+        if not isinstance(body[-1], ast.Raise):
+            raise ValueError('final raise not found')
+        lines, node, first = [], big[0], True
+        while True:
+            lines.append('  %sif %s then %s' % ('' if first else 'else ', _cond(node.test), _outcome(node.body)))
+            first = False
+            if len(node.orelse) == 1 and isinstance(node.orelse[0], ast.If):
+                node = node.orelse[0]
+            else:
+                lines.append('  else %s' % _outcome(node.orelse) if node.orelse else '  else false')
+                break
+        return '\n'.join(lines)
+    def norm(t):
+        return _re.sub(r'[\s()]', '', t)
+    got = S.get('check_kwargs_shape.chain', PINNED_CHAIN, chain)
+    if norm(got) == norm(PINNED_CHAIN) and S.status['check_kwargs_shape.chain'].startswith('extracted'):
+        S.status['check_kwargs_shape.chain'] = 'extracted'
+    lean = """/- GENERATED by harness/slots.py: TRANSLATION of the decision chain of bycycle/group/utils.py check_kwargs_shape
+   (after the dict/None early return and the `kwargs.ndim == 3` rejection). Do not edit. -/
+import BycycleModel.GroupTypes
+namespace Bycycle.Slots
+
+/-- `true` = the function returns, `false` = it raises ValueError. -/
+def checkKwargsChain (k : KwShape) : Bool :=
+%s
+
+end Bycycle.Slots
+""" % got
+    return 'SlotsKwargsShape.lean', lean
+
+GROUPS = [detect_slots, cyclepoints_slots, shape_slots, burstfeat_slots, kwargs_shape_slots]
 
 def write_if_changed(path, text):
     try:
